@@ -169,7 +169,9 @@ end program progMain
 # a source with INCLUDE lines that no reader of this check can resolve on its own search path: they must stay Include_Stmt
 XI = ("program progInc\n  include 'c09_decls.inc'\n  integer :: iVal\n  iVal = 1\n  include \"c09_body.inc\"\nend program progInc\n")
 INC_FILES = {"c09_decls.inc": "integer :: from_project_a\n", "c09_body.inc": "iVal = 2\n"}
-SOURCES = dict(XI=XI, V1=V1, V2=V2, V3=V3, V4=V4, V5=V5_08, V6=V6, V7=V7, I1=I1, I2=I2, I3=I3, I4=I4, I5=I5, IK=IK, X1=X1, X2=X2, X3=X3_08, X4=X4)
+W1 = "program progLit\n  character(len = 8) :: sTxt\n  sTxt = 'a b'\n  print '(a, i3)', 'n =', 1; sTxt = 'p  q'\nend program progLit\n"
+W2 = "program progLit\n  character(len = 8) :: sTxt\n  sTxt = 'a   b'\n  print '(a,  i3)', 'n  =', 1; sTxt = 'p q'\nend program progLit\n"
+SOURCES = dict(W1=W1, W2=W2, XI=XI, V1=V1, V2=V2, V3=V3, V4=V4, V5=V5_08, V6=V6, V7=V7, I1=I1, I2=I2, I3=I3, I4=I4, I5=I5, IK=IK, X1=X1, X2=X2, X3=X3_08, X4=X4)
 
 
 class _Sources(dict):
@@ -353,6 +355,11 @@ def histories(ctx):
         for std in ("f2003", "f2008"):
             for x in ("XI", "XI@file", "X1@file"):
                 cases.append((h + (("create", std),), std, x))
+    # two programs that differ only in the number of blanks inside their character literals, in either order
+    for a, b in (("W1", "W2"), ("W2", "W1")):
+        for std in ("f2003", "f2008"):
+            cases.append(((("create", std), ("parse", a), ("create", std)), std, b))
+            cases.append(((("create", std), ("parse", a)), std, b))
     # generated programs parsed under one standard, then another generated program under the other
     for k in range(ctx.n(60, 1500)):
         a, b, x = ("G%d" % (ctx.seed * 7 + 3 * k + j) for j in range(3))
